@@ -949,9 +949,11 @@ theorem smp3Verify_panic (K : Crypto) (isGE : Nat → Bool) (s2 : Smp2State) (m 
   · injection h
   · split at h
     · injection h
-    · rcases res_bind_panic _ _ _ h with h | ⟨a, _, h⟩
-      · exact divModP_panic _ _ _ _ h
+    · split at h
       · injection h
+      · rcases res_bind_panic _ _ _ h with h | ⟨a, _, h⟩
+        · exact divModP_panic _ _ _ _ h
+        · injection h
 
 theorem smp3Success_panic (K : Crypto) (s2 : Smp2State) (m : Smp3Msg) (site : String)
     (h : smp3Success K s2 m = .panic site) : site = "divMod: ModInverse returned nil" := by
@@ -1422,7 +1424,9 @@ theorem ctrOf_rotateOurKeys (K : Crypto) (k : Keys) (rid sid : Nat) (np : Option
       simp only [kp, Bool.and_eq_true, beq_iff_eq] at hc
       simp only [bne_iff_ne, ne_eq]
       omega
-    cases np <;> exact ctrOf_filter _ _ _ _ hq
+    cases np
+    · rfl
+    · exact ctrOf_filter _ _ _ _ hq
   · rfl
 
 theorem ctrOf_rotateTheirKey (k : Keys) (rid sid y : Nat) (h : sid ≠ 0) :
@@ -1958,8 +1962,10 @@ theorem smp3Verify_ok (K : Crypto) (isGE : Nat → Bool) (s2 : Smp2State) (m : S
   · injection h
   · split at h
     · injection h
-    · simp only [e1, Res.bind_ok] at h
-      injection h
+    · split at h
+      · injection h
+      · simp only [e1, Res.bind_ok] at h
+        injection h
 
 theorem smp3Success_ok (K : Crypto) (s2 : Smp2State) (m : Smp3Msg)
     (h1 : K.modInv s2.pb dhP ≠ none) (site : String) : smp3Success K s2 m ≠ .panic site := by
@@ -1992,7 +1998,7 @@ theorem smp2Verify_ge (K : Crypto) (isGE : Nat → Bool) (s1 : Smp1State) (m : S
     (h : smp2Verify K isGE s1 m = true) : isGE m.pb = true ∧ isGE m.qb = true := by
   unfold smp2Verify at h
   simp only [Bool.and_eq_true] at h
-  exact ⟨h.1.1.1.1.2, h.1.1.1.2⟩
+  exact ⟨h.1.1.1.1.1.2, h.1.1.1.1.2⟩
 
 theorem smpBody_safe (K : Crypto) (t : Tlv) (isGE : Nat → Bool) (s : MState)
     (hwf : SmpWF s.conv) (hnum : SmpNumWF K s.conv) (hv : s.conv.version ≠ none)
@@ -2359,7 +2365,7 @@ theorem smp1Verify_ge (K : Crypto) (isGE : Nat → Bool) (m : Smp1Msg)
     (h : smp1Verify K isGE m = true) : isGE m.g2a = true ∧ isGE m.g3a = true := by
   unfold smp1Verify at h
   simp only [Bool.and_eq_true] at h
-  exact ⟨h.1.1.1, h.1.1.2⟩
+  exact ⟨h.1.1.1.1, h.1.1.1.2⟩
 
 theorem smpBody_wait (K : Crypto) (t : Tlv) (st : SmpState) (isGE : Nat → Bool) (s : MState)
     (hge : ∀ n, isGE n = true → n % dhP ≠ 0) (h : SmpWaitWF s.conv) :
